@@ -34,10 +34,16 @@ def _check(y, a, b, what, order2=True):
         return "%s: dL/db differs from the implicit-function value by %.3e" % (what, float((gb - w / den).abs().max()))
     if order2:
         # d/db (w/den) = -w * 6 y * (dy/db) / den^2 = -6 w y / den^3
-        h, = torch.autograd.grad(gb.sum(), [b], allow_unused=True)
+        h, = torch.autograd.grad(gb.sum(), [b], allow_unused=True, retain_graph=True)
         want = -6 * w * yd / den ** 3
         if h is None or not torch.allclose(h, want, rtol=1e-4, atol=1e-6):
             return "%s: second-order d2L/db2 differs from the implicit-function value" % what
+        # mixed: d/da (w / den) = -w (6 y dy/da + 1) / den^2,  dy/da = -y / den
+        ha, = torch.autograd.grad(gb.sum(), [a], allow_unused=True)
+        wanta = -w * (6 * yd * (-yd / den) + 1) / den ** 2
+        if ha is None or not torch.allclose(ha, wanta, rtol=1e-4, atol=1e-6):
+            return "%s: second-order d2L/(da db) differs from the implicit-function value (got %s, expected %s)" % (
+                what, None if ha is None else ha.tolist(), wanta.tolist())
 
 
 def rootfinder_patterns():
@@ -102,7 +108,19 @@ def module_forms():
         return r
 
 
-TABLE = {"rootfinder_patterns": rootfinder_patterns, "y0_and_method_independence": y0_and_method_independence,
+def module_second_order_iterative():
+    """second-order gradients w.r.t. tensors held by the function's object, iterative backward solver"""
+    s, a, b = _leaves(0)
+    for bck in ("cg", "bicgstab"):
+        m = Mod(a, b)
+        y = rootfinder(m.forward, torch.ones(4, dtype=dt) * 0.5, method="broyden1", f_tol=1e-12, x_tol=1e-12, maxiter=300,
+                       bck_options={"method": bck, "rtol": 1e-12, "atol": 1e-14})
+        r = _check(y, m.a, m.b, "rootfinder(nn.Module method, bck=%s)" % bck)
+        if r:
+            return r
+
+
+TABLE = {"module_second_order_iterative": module_second_order_iterative, "rootfinder_patterns": rootfinder_patterns, "y0_and_method_independence": y0_and_method_independence,
          "module_forms": module_forms}
 
 if __name__ == "__main__":
